@@ -61,13 +61,24 @@ SPECS = [
                 "self.active.append(entry)": "let is_reset_ := false",
                 "self.log.append(entry)": "let logged_ := true"},
          skip_stmts=["self.emcy_received.notify_all()", "for callback in self.callbacks:\n    callback(entry)"]),
+    # SdoServer.segmented_upload: response command byte and next toggle from (request command, toggle, bytes left)
+    dict(module="canopen.sdo.server", qualname="SdoServer.segmented_upload", name="src_server_segmented_upload",
+         params=[("command", "Z"), ("toggle_", "Z"), ("buflen_", "Z")], ret="option (Z * Z)",
+         raise_value="None", fallthrough="Some (res_command, toggle_)",
+         attrs={"self._toggle": "toggle_"},
+         calls={"not self._buffer": "(Z.eqb buflen_ 0)"},
+         stmts={"data = self._buffer[:7]": "let data := 0",
+                "size = len(data)": "let size := Z.min buflen_ 7",
+                "del self._buffer[:7]": "let buflen_ := Z.max 0 (Z.sub buflen_ 7)",
+                "response = bytearray(8)": "let response := 0"},
+         skip_stmts=["response[0] = res_command", "response[1:1 + size] = data", "self.send_response(response)"]),
 ]
 
 
 def generate():
     out = ["(* GENERATED by tools/gen_tables.py (tools/tables/src.py, tools/py2coq.py) from the source text of /repo -- do not edit. *)",
            "From Coq Require Import ZArith List Bool String.",
-           "From CV Require Import Base.Val Base.Bytes Base.Tys Base.PyLib Gen.Tables.",
+           "From CV Require Import Base.Val Base.Bytes Base.Tys Base.PyLib Gen.Tables Gen.SdoTables.",
            "Import ListNotations.", "Open Scope Z_scope.", ""]
     for spec in SPECS:
         out.append(py2coq.translate(spec))
